@@ -28,7 +28,14 @@ impl Emitter for FilesWithBackupEmitter {
             // original.
             let tmp_name = filename.with_extension("tmp");
             let bk_name = filename.with_extension("bk");
-            let file_id = fs::canonicalize(filename).unwrap_or_else(|_| filename.to_path_buf());
+            // What gets backed up is a directory entry (the rename below moves a symbolic link,
+            // not the file it points to): identify it by its real directory and its own name.
+            let file_id = match (filename.parent(), filename.file_name()) {
+                (Some(dir), Some(name)) if !dir.as_os_str().is_empty() => fs::canonicalize(dir)
+                    .map(|dir| dir.join(name))
+                    .unwrap_or_else(|_| filename.to_path_buf()),
+                _ => filename.to_path_buf(),
+            };
 
             fs::write(&tmp_name, formatted_text)?;
             if !self.backed_up.contains(&file_id) {
